@@ -157,6 +157,19 @@ pub fn run(ctx: &Ctx) -> i32 {
             check_case(ctx, st, &tcs, Settings::new(REP));
         });
     }
+    // test cases of more than 512 graphemes where only a part is periodic (windowed searches would show here)
+    {
+        let distinct: String = (0..300u32).filter_map(|k| char::from_u32(0x4e00 + k)).collect();
+        let cases: Vec<Vec<String>> = if ctx.thorough {
+            vec![vec![format!("{}xyz", "ab".repeat(256))], vec![format!("{distinct}{}zz", "q".repeat(215))], vec![format!("{}{}", "abc".repeat(100), distinct)], vec![format!("{distinct}{}", "ab".repeat(330))]]
+        } else {
+            vec![vec![format!("{}xyz", "ab".repeat(256))], vec![format!("{distinct}{}zz", "q".repeat(215))]]
+        };
+        par_for(&ctx.run, cases.len(), |i, st| {
+            st.count("partly_periodic_over_512_graphemes");
+            check_case(ctx, st, &cases[i], Settings::new(REP));
+        });
+    }
     // random repeat-rich families x other settings
     let n = if ctx.thorough { 300_000 } else { 12_000 };
     let names = ["ab", "abc", "meta", "graph", "astral", "classes", "case", "ws", "clusters", "tokens"];
